@@ -1,4 +1,5 @@
 import MorfuseModel.Sched.NotifyLemmas
+import MorfuseModel.Sched.MachineHostProps
 /-!
 # C07 — waittill / notify: no lost, early or duplicate wake-ups  (table layer)
 
@@ -160,5 +161,151 @@ theorem demoT_mirror : Mirror demoT :=
   C07_register_mirror _ (C07_register_mirror _ (C07_register_mirror _ (by intro _ _ _; simp [Tbl.getD_nil]) 1 7 100) 1 7 101) 1 7 100
 
 example : (notifyT demoT 1 7).2 = [101, 100] ∧ Tbl.getD demoT.n (1, 7) = [100, 101, 100] := by decide
+
+/-! ## Machine level: the tables of the whole scheduler machine, in every reachable state
+
+`Reachable s` (`Sched/MachineHost.lean`): produced from the initial state by any list of host operations
+of the driver (compile/recompile a `ProgOK` program, host calls, `advance`, `execute`, `step`,
+`reset-director`, `reset`, reading the output), **without `save`/`load`**; modulo running out of fuel.
+`ProgOK`: object ids < 100 and no `local.p0 waittill` (waiting on a *thread object* by name); the only
+way a thread becomes a wait source is `waitthread` (channel 0).  The statements rest on `iAll`: the
+invariant `Inv` holds through every function of the machine, nested executions and destruction cascades
+included. -/
+
+/-- **Mirror, machine level.**  In every reachable state the notify and wait-for tables are mirror
+    images with multiplicity, and every listener mentioned in them is alive (its weak reference reads
+    non-null): sources and waiters. -/
+theorem C07_machine_tables_mirror {s : State} (h : Reachable s) :
+    s.outOfFuel = true ∨
+      ((∀ o n x, (Tbl.getD s.notify (o, n)).count x = (Tbl.getD s.waitFor (x, n)).count o) ∧
+       (∀ o n x, x ∈ Tbl.getD s.notify (o, n) → s.alive o = true ∧ s.alive x = true)) := by
+  refine (reachable_hinv h).map (fun hi => ⟨hi.inv.tab.mir, ?_⟩)
+  intro o n x hx
+  obtain ⟨a1, a2⟩ := hi.inv.tab.aN o n x hx
+  refine ⟨a1, ?_⟩
+  rw [State.alive_thread _ (by simpa [State.isThread] using hi.inv.n.nMem _ _ hx)]
+  exact a2
+
+/-- **Waiting ⇔ registered, machine level.**  In every reachable state a listener owns a wait-for entry
+    iff it is a thread in state `waiting`. -/
+theorem C07_machine_waiting_iff_registered {s : State} (h : Reachable s) :
+    s.outOfFuel = true ∨
+      ∀ t, (∃ th, s.th? t = some th ∧ th.ts = .waiting) ↔ Tbl.hasOwner s.waitFor t = true :=
+  (reachable_hinv h).map (fun hi t => hi.inv.waiting_iff t)
+
+/-- **No lost wake-up, machine level.**  In every reachable state a `waiting` thread is registered in the
+    notify list of some `(o, n)` whose source `o` is alive — so a `notify` of that name on `o`, or the
+    deletion of `o`, reaches it; and conversely every listener in a notify list is a live thread in state
+    `waiting` holding the mirror entry. -/
+theorem C07_machine_no_lost_wakeup {s : State} (h : Reachable s) :
+    s.outOfFuel = true ∨
+      ((∀ t th, s.th? t = some th → th.ts = .waiting →
+          ∃ o n, t ∈ Tbl.getD s.notify (o, n) ∧ s.alive o = true) ∧
+       (∀ o n x, x ∈ Tbl.getD s.notify (o, n) → o ∈ Tbl.getD s.waitFor (x, n) ∧
+          ∃ th, s.th? x = some th ∧ th.ts = .waiting ∧ th.dead = false ∧ th.hasVM = true)) :=
+  (reachable_hinv h).map (fun hi =>
+    ⟨fun _ _ hf hw => hi.inv.waiting_has_source hf hw,
+     fun _ _ _ hx => ⟨(hi.inv.registered_waiting hx).2.1, (hi.inv.registered_waiting hx).2.2⟩⟩)
+
+/-- **A removed source keeps no waiter, machine level.**  `UnregisterAll` of `src` (part of every
+    listener's destructor) run in a state that satisfies the machine invariant — every state at a call
+    boundary inside a host operation, by `iAll` — ends (unless out of fuel) in a state that satisfies it
+    again and in which nothing is registered under `src`: the waiters were deleted
+    (`StoppedWaitFor(name, true)`), none of them executed. -/
+theorem C07_machine_removed_source_clears (fuel : Nat) {C W : List Nat} {s : State} (h : Inv C W none s) (src : Nat) :
+    (unregisterAll fuel s src).outOfFuel = true ∨
+      (Inv C W none (unregisterAll fuel s src) ∧ Tbl.hasOwner (unregisterAll fuel s src).notify src = false) :=
+  (iAll fuel).ua C W s src h
+
+/-- **`notify` wakes exactly the registered threads, once each, in order — machine level.**
+    `o notify n` on an object `o` (no `endon` list for `(o, n)`) in any state satisfying the machine
+    invariant, with at least two units of fuel, *is* the following: first both tables are updated to
+    `notifyT` of the table layer — so at that moment nothing is registered under `(o, n)` any more and, by
+    `C07_notify_wakes_registered_once` / `C07_notify_clears`, the selected list is exactly the threads
+    registered at issue time, each once, in registration order — and only then `StoppedWaitFor(n, false)` is
+    called on the selected threads in that order, skipping those a previously woken thread destroyed.
+    (What each call does — nested execution of the woken thread — keeps the invariant:
+    `C07_machine_notify_keeps_invariant_partial`.) -/
+theorem C07_machine_notify_wakes_registered_once (fuel : Nat) {W : List Nat} {top : Option Nat} {s : State}
+    (h : Inv [] W top s) (o n : Nat) (ho : o < 100) (he : Tbl.find s.endOn (o, n) = none)
+    (list : List Nat) (hreg : Tbl.find s.notify (o, n) = some list) :
+    unregister (fuel + 2) s o n =
+      (notifyT ⟨s.notify, s.waitFor⟩ o n).2.foldl
+        (fun s l => if s.alive l then stoppedWaitFor (fuel + 1) s l n false else s)
+        { s with waitFor := (notifyT ⟨s.notify, s.waitFor⟩ o n).1.w,
+                 notify := (notifyT ⟨s.notify, s.waitFor⟩ o n).1.n } := by
+  have hE : unregEndOn (deleteThread (fuel + 1)) s o n = (s, false) := by
+    unfold unregEndOn
+    split
+    · rfl
+    · rw [he]
+  have hown : Tbl.hasOwner s.notify o = true :=
+    (h.n.wfN.hasOwner_iff o).2 ⟨n, by rw [Tbl.find_eq_getD_of_some hreg]; exact h.n.wfN.find_ne_nil hreg⟩
+  have halive : ∀ l ∈ list, s.alive l = true := by
+    intro l hl
+    have hx : l ∈ Tbl.getD s.notify (o, n) := by rw [Tbl.find_eq_getD_of_some hreg]; exact hl
+    rw [State.alive_thread _ (by simpa [State.isThread] using h.n.nMem _ _ hx)]
+    exact (h.tab.aN o n l hx).2
+  have hnt : State.isThread o = false := by simp [State.isThread]; omega
+  rw [unregister_succ, hE]
+  simp only [Bool.false_eq_true, if_false]
+  unfold unregNotify
+  simp only [hown, Bool.not_true, Bool.false_eq_true, if_false, hreg]
+  rw [unregisterTargets_eq s o n list halive]
+  simp only [stoppedNotify_succ, hnt, Bool.false_eq_true, if_false, ite_self]
+  unfold wakeLoop notifyT
+  simp only [Tbl.find_eq_getD_of_some hreg]
+
+/-- **`notify` through the nested executions, machine level** — what is proved: `Unregister(name)` on `src`
+    (script `notify`) run in a state satisfying the machine invariant with no cancel in progress ends
+    (unless out of fuel) in a state that satisfies it again (mirror, liveness, waiting ⇔ registered), every
+    thread that existed before either keeps its record or is gone, and no thread is current that was not.
+
+    *Not* proved, because it is false at machine level: "after `notify o n` returns no thread is registered
+    under `(o, n)`".  A woken thread runs nested inside the notify and may execute `waittill o n` again
+    before the notify returns (`demoRewait` below).  The clause that is true — the registrations present
+    at issue time are all consumed, each exactly once, before any woken thread runs — is the table-layer
+    theorem `C07_notify_clears` / `C07_notify_wakes_registered_once` applied to the machine's tables
+    (`unregisterTargets_eq`). -/
+theorem C07_machine_notify_keeps_invariant_partial (fuel : Nat) {W : List Nat} {s : State}
+    (h : Inv [] W none s) (src name : Nat) :
+    (unregister fuel s src name).outOfFuel = true ∨
+      (Inv [] W none (unregister fuel s src name) ∧ G s (unregister fuel s src name)) :=
+  (iAll fuel).ur [] W s src name h (Or.inl rfl)
+
+/-! ### non-vacuity, machine level -/
+
+/-- thread 100 starts 101 and 102, both wait on `level` (object 50) under name 7; 100 then waits 5 ms -/
+def demoWaiters : List HostOp :=
+  [.script [[.thread 1, .thread 1, .wait 5, .notify 50 7, .mark 9], [.waittill 50 [7], .mark 2]] [0, 0],
+   .call 0 [], .takeOut]
+
+theorem demoWaiters_reachable : Reachable (runOps {} demoWaiters) :=
+  (reachable_iff _).2 ⟨demoWaiters, by decide, rfl⟩
+
+example : (runOps {} demoWaiters).outOfFuel = false ∧
+    (runOps {} demoWaiters).notify = [((50, 7), [101, 102])] ∧
+    (runOps {} demoWaiters).waitFor = [((101, 7), [50]), ((102, 7), [50])] ∧
+    ((runOps {} demoWaiters).th? 101).map (·.ts) = some .waiting := by decide +kernel
+
+/-- the hypotheses of `C07_machine_notify_wakes_registered_once` are met by a reachable state with two
+    registered waiters -/
+example : ∃ s, Inv [] [] none s ∧ Tbl.find s.notify (50, 7) = some [101, 102] ∧ Tbl.find s.endOn (50, 7) = none :=
+  ⟨runOps {} demoWaiters, ((reachable_hinv demoWaiters_reachable).get (by decide +kernel)).inv,
+    by decide +kernel, by decide +kernel⟩
+
+/-- the frame at clock 5 resumes 100, whose `notify` wakes both waiters nested, in registration order -/
+example : (runOps {} (demoWaiters ++ [.step 5])).out = ["m9", "m2", "m2"] ∧
+    (runOps {} (demoWaiters ++ [.step 5])).notify = [] ∧
+    (runOps {} (demoWaiters ++ [.step 5])).waitFor = [] := by decide +kernel
+
+/-- why "nothing is registered under `(o, n)` after `notify o n`" is false at machine level: the woken
+    thread waits again on the same name before the notify returns -/
+def demoRewait : List HostOp :=
+  [.script [[.thread 1, .notify 50 7, .mark 9], [.waittill 50 [7], .mark 2, .waittill 50 [7], .mark 3]] [0, 0],
+   .call 0 []]
+
+example : (runOps {} demoRewait).outOfFuel = false ∧ (runOps {} demoRewait).out = ["m9", "m2"] ∧
+    (runOps {} demoRewait).notify = [((50, 7), [101])] := by decide +kernel
 
 end Morfuse.Sched
